@@ -61,6 +61,10 @@ KNOWN_REPRODUCERS = [
     "x = list[int]\nx.y = 1\n",                        # NotImplementedError attribute.set_attribute
     "from typing import Generic, TypeVar\nT = TypeVar('T')\nclass Bad(Generic[T, T]): pass\n",  # ContainerError
     "from typing import List, TypedDict\nclass TD(TypedDict):\n    v: List['TD']\nx: TD = {}\n",  # RecursionError
+    "from foo.__init__ import x\n",                    # AssertionError typeshed._is_module_in_typeshed
+    "def helper(): pass\nclass Point:\n    x = helper.__class__\n",   # AssertionError output.value_to_pytd_def
+    "class A:\n    class B:\n        def __new__(mcs): pass\n",      # TypeError pytd/parse/node.Replace
+    "from typing import List\nx = List[r'\\d+']\ny = 1 + ''\n",   # analysed; compiler error names the string annotation
     # FlawedQuery in convert_structural.match_call_record (needs --protocols)
     ("from typing import List\nG0 = 0\nG1: List[int]\ndef helper():\n    open(G1 and G0)\n", {"protocols": True}),
 ]
@@ -192,9 +196,14 @@ def judge(text, cp, outcome):
       else:
         agreed_compile_line = L      # CPython itself blames this line (may be EOF+1)
   elif cp[0] == "ok":
-    if comp:
+    # "not analysed": the result is the compile-failure shape of check_or_generate_pyi (default stub +
+    # the compiler error alone).  A python-compiler-error next to a real stub is pytype's name for
+    # a string annotation that does not compile (e.g. List[r'\d+']): the file was analysed.
+    if comp and (len(errs) == 1 and outcome.get("pyi_is_default")):
       viol.append((classify_false_compile_error(text, comp[0][2]),
                    {"reported": comp[0], "lines": n}))
+    elif comp:
+      outcome["annotation_string_compile_error"] = True
     if not isinstance(outcome.get("pyi"), str):
       viol.append(("compilable source: no stub text returned", {"pyi_type": str(type(outcome.get("pyi")))}))
   for name, L, msg in errs:
@@ -255,6 +264,31 @@ def make_text(item):
   raise ValueError(k)
 
 
+def _is_default_stub(pyi):
+  try:
+    from pytype.imports import builtin_stubs
+    return isinstance(pyi, str) and pyi.startswith(builtin_stubs.DEFAULT_SRC) and (
+        pyi == builtin_stubs.DEFAULT_SRC or pyi[len(builtin_stubs.DEFAULT_SRC):].lstrip().startswith("#"))
+  except Exception:  # pylint: disable=broad-except
+    return False
+
+
+def _set_cpu_limit(seconds_from_now):
+  """Soft RLIMIT_CPU relative to the CPU time already used (None lifts it)."""
+  try:
+    import resource
+    _, hard = resource.getrlimit(resource.RLIMIT_CPU)
+    if seconds_from_now is None:
+      soft = hard
+    else:
+      soft = int(time.process_time() + seconds_from_now) + 2
+      if hard != resource.RLIM_INFINITY:
+        soft = min(soft, hard)
+    resource.setrlimit(resource.RLIMIT_CPU, (soft, hard))
+  except Exception:  # pylint: disable=broad-except
+    pass
+
+
 def analyze_text(text, workdir, name, opts, watchdog):
   """Writes text to a scratch file, runs the real entry point under the alarm.
 
@@ -278,9 +312,13 @@ def analyze_text(text, workdir, name, opts, watchdog):
   t0 = time.time()
   # watchdog: `watchdog` seconds of CPU time of this process (robust against a loaded machine),
   # backed by a wall-clock alarm at 8x for analyses that block without using CPU
+  # A Python-level handler only runs between bytecodes: an analysis stuck inside the C++ solver is
+  # ended by the kernel instead (RLIMIT_CPU soft limit at 3x the watchdog => SIGXCPU kills the
+  # child; the parent names the file from the progress file and counts it as not judged).
   old = signal.signal(signal.SIGALRM, _on_alarm)
   old_prof = signal.signal(signal.SIGPROF, _on_alarm)
-  signal.setitimer(signal.ITIMER_PROF, float(watchdog))
+  _set_cpu_limit(3 * watchdog)
+  signal.setitimer(signal.ITIMER_PROF, float(watchdog), 5.0)
   signal.alarm(int(watchdog) * 8)
   try:
     try:
@@ -288,7 +326,7 @@ def analyze_text(text, workdir, name, opts, watchdog):
       signal.alarm(0)
       signal.setitimer(signal.ITIMER_PROF, 0)
       outcome = {"kind": "result", "errors": [[n, l, str(m)[:300]] for n, l, m in res.errors],
-                 "pyi": res.pyi}
+                 "pyi": res.pyi, "pyi_is_default": _is_default_stub(res.pyi)}
     except _Timeout:
       outcome = {"kind": "timeout"}
     except utils.UsageError as e:
@@ -311,6 +349,7 @@ def analyze_text(text, workdir, name, opts, watchdog):
   finally:
     signal.alarm(0)
     signal.setitimer(signal.ITIMER_PROF, 0)
+    _set_cpu_limit(None)
     signal.signal(signal.SIGALRM, old)
     signal.signal(signal.SIGPROF, old_prof)
     try:
@@ -348,6 +387,8 @@ def run_item(item, workdir, watchdog, k):
   })
   rec["nontrivial"] = bool(judged and ((cp[0] in ("ok", "unknown") and out["dispatches"] >= 30) or
                                        (cp[0] == "error" and n >= 3)))
+  if out.get("annotation_string_compile_error"):
+    rec["annotation_string_compile_error"] = True
   if cp[0] == "error":
     rec["cp_line_none"] = cp[1] is None
     rec["compile_error_agreed"] = judged and not viol and out["kind"] == "result"
@@ -362,8 +403,15 @@ def run_item(item, workdir, watchdog, k):
 
 def child(arg):
   import faulthandler
-  faulthandler.enable()
   variant = os.environ.get("VERIF_EXT_VARIANT", "plain")
+  fault_fh = None
+  if arg.get("partial"):
+    # Python stacks of a dying child go to a side file so that stderr keeps the native runtime's own
+    # last words (e.g. "terminate called after throwing an instance of 'std::bad_alloc'")
+    fault_fh = open(arg["partial"] + ".fault", "w")
+    faulthandler.enable(file=fault_fh)
+  else:
+    faulthandler.enable()
   if variant != "asan":
     try:
       import resource
@@ -515,16 +563,38 @@ def make_tasks(items, tier, run_id, round_no=0, asan_fraction=0.05):
   nb = 30 if tier == "quick" else 96
   if round_no:
     nb = min(nb, max(1, len(plain_items) // 4))
+  # one bytecode version per child process: pytype caches the parsed builtins per process without
+  # the version in the key (a 3.12 analysis after a 3.10 one lacks builtins.ExceptionGroup), which
+  # is outside C15's quantifier (one text, fresh context) - see notes/C15.md
+  native = [it for it in plain_items if "python_version" not in (it.get("opts") or {})]
   for i in range(nb):
-    b = plain_items[i::nb]
+    b = native[i::nb]
     if b:
       add(b, "plain", i)
+  by_ver = collections.defaultdict(list)
+  for it in plain_items:
+    v = (it.get("opts") or {}).get("python_version")
+    if v:
+      by_ver[tuple(v)].append(it)
+  idx = nb
+  for v in sorted(by_ver):
+    for j in range(0, len(by_ver[v]), 50):
+      add(by_ver[v][j:j + 50], "plain", idx)
+      idx += 1
   na = 2 if tier == "quick" else 8
   for i in range(na):
     b = asan_items[i::na]
     if b:
       add(b, "asan", i)
   return tasks
+
+
+def _read_tail(path, n):
+  try:
+    with open(path) as f:
+      return f.read()[-n:]
+  except OSError:
+    return ""
 
 
 def read_partial(path):
@@ -601,7 +671,16 @@ def run(tier, seed):
         elif res.get("timeout"):
           ck.count("files_not_judged: batch watchdog fired", 1)
           died.append(("timeout", current))
+        elif res.get("rc") in (-24, 152):
+          ck.count("files_not_judged: hard CPU limit (analysis stuck in native code)", 1)
+          died.append(("SIGXCPU", current))
+        elif res.get("rc") in (-6, 134) and any(m in (res.get("stderr") or "") for m in (
+            "bad_alloc", "MemoryError", "Cannot allocate memory", "out of memory")):
+          # the native solver ran into the 8 GiB address-space limit of the child: resource, not verdict
+          ck.count("files_not_judged: native code aborted on the address-space limit (std::bad_alloc)", 1)
+          died.append(("bad_alloc", current))
         elif res.get("rc") in (-11, -6, -7, -8, -4, 139, 134):
+          info["python_stack"] = _read_tail(t["_partial"] + ".fault", 4000)
           try:
             if culprit:
               info["text"] = make_text(culprit)[0][:150000]
@@ -614,10 +693,11 @@ def run(tier, seed):
           if current is None and not done:
             ck.inconclusive(f"batch {tid} failed before analysing anything: {res.get('error')} "
                             f"{(res.get('traceback') or res.get('stderr') or '')[-800:]}")
-      try:
-        os.unlink(t["_partial"])
-      except OSError:
-        pass
+      for pth in (t["_partial"], t["_partial"] + ".fault"):
+        try:
+          os.unlink(pth)
+        except OSError:
+          pass
   if pending:
     ck.count("files_not_judged: not re-run after repeated worker failures", len(pending))
 
@@ -645,6 +725,8 @@ def run(tier, seed):
         ck.count("compile_error_cases_agreeing_with_cpython_line")
       if rec.get("cp_line_none"):
         ck.count("compile_error_cases_where_cpython_gives_no_line")
+    if rec.get("annotation_string_compile_error"):
+      ck.count("compilable_sources_with_python-compiler-error_for_a_string_annotation(analysed, not judged)")
     if rec.get("cp") == "unknown":
       ck.count("cpython_compile_verdict_unknown")
     if rec.get("label", "").startswith("mutant"):
